@@ -143,7 +143,9 @@ func scanConsumeLine(p *symbolScanner) scanStateFn {
 
 func scanEquValue(p *symbolScanner) scanStateFn {
 	for p.nextToken.typ != tokNewline && p.nextToken.typ != tokEOF && p.nextToken.typ != tokError {
-		p.valBuf = append(p.valBuf, p.nextToken)
+		if p.nextToken.typ != tokComment {
+			p.valBuf = append(p.valBuf, p.nextToken)
+		}
 		p.next()
 	}
 	for _, label := range p.labelBuf {
